@@ -32,7 +32,7 @@ Definition w_item : list ev :=
 (* (b) thread 0 acquires in the middle of thread 1's refresh (formerly: between set_discriminant
    and clear) and drops the item after the refresh *)
 Definition w_window : list ev :=
-  [Step 1 CiRefresh ChNone 0; nop 1; Step 0 CiAcquire ChNone 0] ++ repeat (nop 1) 12 ++
+  [Step 1 CiRefresh ChNone 0; nop 1; nop 1; Step 0 CiAcquire ChNone 0] ++ repeat (nop 1) 12 ++
   [Step 2 CiAcquire ChNone 0; Step 0 CiNone ChDrop 0] ++ repeat (nop 0) 3 ++
   [Step 3 CiAcquire ChNone 0; Step 3 CiNone ChDrop 0] ++ repeat (nop 3) 3 ++
   [Step 3 CiAcquire ChNone 0].
